@@ -5,6 +5,7 @@ Contains the hardware interface and drivers for the Penny K Pinball PKONE
 platform hardware.
 """
 import asyncio
+import re
 from copy import deepcopy
 from typing import Optional, Dict, List, Tuple, Set
 
@@ -186,7 +187,11 @@ class PKONEHardwarePlatform(SwitchPlatform, DriverPlatform, LightsPlatform, Serv
 
         # Can't use try since it swallows too many errors for now
         if cmd in self.pkone_commands:
-            self.pkone_commands[cmd](payload)
+            try:
+                self.pkone_commands[cmd](payload)
+            except (ValueError, IndexError) as e:
+                # the payload does not have the shape this message type must have, i.e. line noise
+                self.log.warning("Ignoring malformed message %s from PKONE: %s", msg, e)
         else:   # pragma: no cover
             self.log.warning("Received unknown serial command %s.", msg)
 
@@ -446,6 +451,11 @@ class PKONEHardwarePlatform(SwitchPlatform, DriverPlatform, LightsPlatform, Serv
         # The PSW message contains the following information:
         # [PSW opcode] + [board address id] + switch number + switch state (0 or 1) + E
         self.debug_log("Received switch state change (PSW): %s", msg)
+        if not re.fullmatch('[0-7][0-9][0-9][01]', msg):
+            # anything else is line noise and must not be mistaken for a (different) switch
+            self.log.warning("Ignoring malformed switch message from PKONE: PSW%s", msg)
+            return
+
         switch_number = PKONESwitchNumber(int(msg[0]), int(msg[1:3]))
         switch_state = int(msg[-1])
         self.machine.switch_controller.process_switch_by_num(state=switch_state,
